@@ -37,12 +37,16 @@ string enc(mixed v) {
 
 // round trip through save_variable / restore_variable
 void rt(int id, mixed v) {
-  mixed e, r; string s;
+  mixed e, r; string s; int i, wf;
   e = catch(s = save_variable(v));
   if (e) { vlog("\"e\":\"RT\",\"id\":" + id + ",\"how\":\"var\",\"err\":\"save\",\"orig\":" + enc(v)); return; }
   e = catch(r = restore_variable(s));
   if (e) { vlog("\"e\":\"RT\",\"id\":" + id + ",\"how\":\"var\",\"err\":\"restore\",\"orig\":" + enc(v) + ",\"text\":" + jq(to_hex(s))); return; }
-  vlog("\"e\":\"RT\",\"id\":" + id + ",\"how\":\"var\",\"err\":\"\",\"orig\":" + enc(v) + ",\"back\":" + enc(r) + ",\"text\":" + jq(to_hex(s)));
+  // the text is a well-formed string: its recorded length is the length of its text (no NUL inside, appending appends)
+  wf = 1;
+  for (i = 0; i < strlen(s); i++) if (!s[i]) wf = 0;
+  if ((s + "|")[<1] != '|' || strlen(s + "|") != strlen(s) + 1) wf = 0;
+  vlog("\"e\":\"RT\",\"id\":" + id + ",\"how\":\"var\",\"err\":\"\",\"orig\":" + enc(v) + ",\"back\":" + enc(r) + ",\"wf\":" + wf + ",\"text\":" + jq(to_hex(s)));
 }
 
 // round trip through save_object / restore_object into a fresh clone
